@@ -73,53 +73,61 @@ FAILS = {
 
 
 def rule_1(ctx):
-    models = _models()
+    """Domain guards, decided on values: each function as the evaluator calls it (the registered object - wrapper, private
+    decorators, body; numpy on numbers modelled with IEEE results) at the critical points of its domain: an argument outside the
+    domain gives an Excel error value (not NaN, not infinity, not a Python exception), an argument inside is accepted."""
+    import math as _m
+    from . import values as V
+    models = V.numpy_models()
+
+    def outcome(name, args):
+        out = V.call(ctx, name, [V.num(a) for a in args], models=models)
+        if out.end == 'raise':
+            return 'python exception ' + (out.value.ref.rpartition(':')[2] if isinstance(out.value, Ref) else repr(out.value))
+        got = V.norm(out.value)
+        if isinstance(got, tuple) and got and got[0] in ('error', 'error-class'):
+            return 'excel error'
+        val = got[1] if isinstance(got, tuple) and len(got) == 2 else got
+        if isinstance(val, float) and (_m.isnan(val) or _m.isinf(val)):
+            return 'NaN / infinity'
+        if isinstance(val, complex):
+            return 'a complex number'
+        return 'value'
     for name, specs in DOMAINS.items():
         f = _reg(ctx, name)
         fn = f.node
-        params = func_params(fn)
+        nparams = len([p for p in f.params if p.default is None])
         for pidx, points in specs:
             wrong_in, wrong_out = [], []
             for val, must_raise in points:
-                env = {p: 2.0 for p in params}
-                env[params[pidx]] = val
-                # defaults
-                for p in f.params:
-                    if p.default is not None and p.name != params[pidx]:
-                        try:
-                            env[p.name] = ctx.fold(p.default, f.module)
-                        except Unfoldable:
-                            pass
-                it = Interp(ctx.a, f.module, env, call_models=models, inline_pkg=True, scope_fn=fn)
-                out = it.run(fn.body)
-                raised_xl = out.end == 'raise' and isinstance(out.value, Ref) and is_excel_error_ref(ctx, out.value.ref)
-                raised_py = out.end == 'raise' and not raised_xl
-                if must_raise and not raised_xl:
-                    wrong_out.append(val)
-                if not must_raise and (raised_xl or raised_py):
-                    wrong_in.append(val)
+                args = [2.0] * max(nparams, pidx + 1)
+                args[pidx] = val
+                res = outcome(name, args)
+                if must_raise and res != 'excel error':
+                    wrong_out.append(f'{val} -> {res}')
+                if not must_raise and res != 'value':
+                    wrong_in.append(f'{val} -> {res}')
             ctx.expect(not wrong_out, fn, f'{name}: arguments outside the domain give an Excel error',
-                       f'{name}({", ".join(map(str, wrong_out))}) is outside the domain but no guard raises an Excel error before the '
+                       f'{name}({", ".join(wrong_out)}) is outside the domain but no guard raises an Excel error before the '
                        f'library call: {FAILS.get(name, "the result is NaN/inf or a Python exception")}')
             ctx.expect(not wrong_in, fn, f'{name}: arguments inside the domain are accepted',
-                       f'{name}({", ".join(map(str, wrong_in))}) is inside the domain but is rejected')
-    # MOD and POWER: partial native operations on the numbers
+                       f'{name}({", ".join(wrong_in)}) is inside the domain but is rejected')
+    # MOD and POWER on the numbers
     f = _reg(ctx, 'MOD')
-    fn = f.node
-    p = func_params(fn)
-    guard = any(isinstance(n, ast.If) and p[1] in names_in(n.test) and any(
-        isinstance(r, ast.Raise) and raise_class(ctx, r) == XLERR + 'DivZeroExcelError' for r in n.body) for n in walk_local(fn))
-    ctx.expect(guard, fn, 'MOD: zero divisor gives #DIV/0!', 'MOD(n, 0) is not guarded: it raises ZeroDivisionError')
-    r = last_return(fn)
-    ok = r is not None and isinstance(r.value, ast.BinOp) and isinstance(r.value.op, ast.Mod) \
-        and ast.unparse(r.value.left) == p[0] and ast.unparse(r.value.right) == p[1]
-    ctx.expect(ok, fn, 'MOD = number % divisor (sign of the divisor)', 'MOD does not compute number % divisor')
+    res = [outcome('MOD', [5, 0]), outcome('MOD', [-2.5, 0.0])]
+    ctx.expect(all(r == 'excel error' for r in res), f.node, 'MOD: zero divisor gives #DIV/0!', f'MOD(n, 0) is not guarded: it ends in {res}')
+    wrong = []
+    for a, b, want in ((7, 3, 1), (-7, 3, 2), (7, -3, -2), (-7, -3, -1), (6, -3, 0), (-6, -3, 0), (0, -5, 0), (7.5, 2, 1.5), (7.5, -2.5, 0.0), (5, 7, 5), (-5, 7, 2)):
+        out = V.call(ctx, 'MOD', [V.num(a), V.num(b)], models=models)
+        got = V.norm(out.value) if out.end == 'return' else (out.end, V.norm(out.value))
+        val = got[1] if isinstance(got, tuple) and len(got) == 2 and got[0] == 'Number' else got
+        if not (isinstance(val, (int, float)) and not isinstance(val, bool) and abs(val - want) < 1e-12):
+            wrong.append(f'MOD({a},{b}) = {got!r} instead of {want}')
+    ctx.expect(not wrong, f.node, 'MOD = number % divisor (sign of the divisor)', '; '.join(wrong[:4]))
     f = _reg(ctx, 'POWER')
-    fn = f.node
-    handler = any(isinstance(n, ast.Try) for n in walk_local(fn))
-    guards = [n for n in walk_local(fn) if isinstance(n, ast.If) and any(isinstance(r, ast.Raise) for r in n.body)]
-    ctx.expect(handler or bool(guards), fn, 'POWER: overflow / 0^negative give an Excel error',
-               'POWER has neither a guard nor a handler: POWER(10.5,400) raises OverflowError, POWER(0,-1) ZeroDivisionError')
+    res = {f'POWER({a},{b})': outcome('POWER', [a, b]) for a, b in ((10.5, 400), (0, -1), (0.0, -2.5))}
+    ctx.expect(all(r == 'excel error' for r in res.values()), f.node, 'POWER: overflow / 0^negative give an Excel error',
+               f'POWER has neither a guard nor a handler: {res} (POWER(10.5,400) raises OverflowError, POWER(0,-1) ZeroDivisionError)')
     ctx.floor(26, 'domain obligations')
 
 
